@@ -6,6 +6,7 @@ import (
 	"testing"
 
 	"github.com/yaricom/goNEAT/v4/experiment"
+	"pgregory.net/rapid"
 )
 
 /* C19 - result statistics equal their definitions for every series */
@@ -147,6 +148,53 @@ func TestC19Series(t *testing.T) {
 
 type C19Exp struct {
 	Exp ExpSpec `json:"experiment"`
+	// Warm lists accessors (by index into expAccessors) that are called, results discarded, before the comparison:
+	// every aggregate is a function of the recorded generations, not of the calls made earlier on the same object.
+	Warm []int `json:"warm,omitempty"`
+}
+
+// expAccessors: every accessor of the experiment and of its trials, as calls whose results are discarded
+var expAccessors = []func(e *experiment.Experiment){
+	func(e *experiment.Experiment) { e.AvgWinnerStatistics() },
+	func(e *experiment.Experiment) { e.BestFitness() },
+	func(e *experiment.Experiment) { e.BestSpeciesAge() },
+	func(e *experiment.Experiment) { e.BestComplexity() },
+	func(e *experiment.Experiment) { e.AvgDiversity() },
+	func(e *experiment.Experiment) { e.EpochsPerTrial() },
+	func(e *experiment.Experiment) { e.SuccessRate() },
+	func(e *experiment.Experiment) { e.TrialsSolved() },
+	func(e *experiment.Experiment) { e.BestOrganism(false) },
+	func(e *experiment.Experiment) { e.BestOrganism(true) },
+	func(e *experiment.Experiment) {
+		for i := range e.Trials {
+			e.Trials[i].WinnerStatistics()
+		}
+	},
+	func(e *experiment.Experiment) {
+		for i := range e.Trials {
+			e.Trials[i].BestOrganism(true)
+			e.Trials[i].BestOrganism(false)
+		}
+	},
+	func(e *experiment.Experiment) {
+		for i := range e.Trials {
+			e.Trials[i].Solved()
+			e.Trials[i].Average()
+			e.Trials[i].ChampionsFitness()
+		}
+	},
+}
+
+func genC19Exp() *rapid.Generator[C19Exp] {
+	eg := genExpSpec()
+	return rapid.Custom(func(t *rapid.T) C19Exp {
+		c := C19Exp{Exp: eg.Draw(t, "experiment")}
+		n := rapid.IntRange(0, 4).Draw(t, "warm-up calls")
+		for i := 0; i < n; i++ {
+			c.Warm = append(c.Warm, rapid.IntRange(0, len(expAccessors)-1).Draw(t, "accessor"))
+		}
+		return c
+	})
 }
 
 func refMean(x []float64) float64 {
@@ -175,6 +223,23 @@ func firstSolved(t TrialSpec) *GenSpec {
 
 func CheckC19Exp(c C19Exp, rec *Rec) (err error) {
 	e := c.Exp.Build()
+	for _, w := range c.Warm {
+		if _, err := call("accessor", func() int { expAccessors[w%len(expAccessors)](e); return 0 }); err != nil {
+			return fmt.Errorf("warm-up call %d: %v", w, err)
+		}
+		rec.Class("accessors called before the comparison")
+	}
+	// two passes over the same object: the second one sees whatever the accessors of the first one left behind
+	if err := checkExpPass(e, c, rec); err != nil {
+		return err
+	}
+	if err := checkExpPass(e, c, newRec()); err != nil {
+		return fmt.Errorf("second evaluation of the accessors on the same experiment: %v", err)
+	}
+	return nil
+}
+
+func checkExpPass(e *experiment.Experiment, c C19Exp, rec *Rec) (err error) {
 	nT := len(c.Exp.Trials)
 	solvedTrials := 0
 	totalGens := 0
@@ -407,7 +472,7 @@ func checkTrialAggregates(tr *experiment.Trial, t TrialSpec, rec *Rec) error {
 }
 
 func TestC19Exp(t *testing.T) {
-	runProp(t, "C19", "aggregates", 600, 12000, mapGen(genExpSpec(), func(e ExpSpec) C19Exp { return C19Exp{Exp: e} }), CheckC19Exp)
+	runProp(t, "C19", "aggregates", 600, 12000, genC19Exp(), CheckC19Exp)
 }
 
 func init() {
